@@ -147,6 +147,23 @@ def oracle(case, obs):
     return None
 
 
+def coq_term(case, obs):
+    """the output step by step against the slot-level model; and for the datetime runs the trace that ENTERED the window
+    pipelines (tap at the head) against the model's head boundary of the same operator on the integer timestamps - the
+    decision rules compare differences of timestamps with the timeouts, so they are invariant under the affine map
+    ts -> base + ts * unit that the datetime run applies to both"""
+    base = muxlib.coq_muxcase(case['ast'], case['trace'], obs)
+    if case['ctx'] != 'datetime' or not base.startswith('MC ') or 'raised' in obs:
+        return base
+    from harness.props.C03 import bnd_mask
+    plain = muxprop.strip_taps(case['ast'])
+    mask = [False] * len(bnd_mask(plain[0][-1])) + [True, False]
+    tap = obs['taps'].get('1', [])
+    taps = '[[' + '; '.join(muxlib.coq_oev(e) for e in tap if e[0] != 'completed') + ']]'
+    return 'MCAnd (%s) (MCBnd %s %s [%s] %s)' % (base, muxlib.coq_pipe(plain), muxlib.coq_trace(case['trace']),
+                                                '; '.join('true' if b else 'false' for b in mask), taps)
+
+
 def nontrivial(case, obs):
     return any(len(sessions(case['cfg'], [dec(x) for x in lt['items']])) >= 2
                for lt in muxprop.lifetime_positions(case['trace']))
@@ -162,7 +179,7 @@ def describe(cases, obs):
 
 
 CLAIM = {
-    'text': "Theorems (Coq): time_split's slot-level machine refines its per-key machine; the windows are `sessions` defined by the property's decision rules (expired iff ts >= reference+active or ts >= previous+inactive, proved as an iff incl. gaps exactly equal to a timeout; closing item included/excluded; reference = first item or preceding closing item), each processed by a fresh inner machine in order; concat sessions = xs. Timestamps are integers in the model; datetime/timedelta runs are compared on the Python side. Oracle: the rules re-implemented in Python from the property text, inner tap.",
+    'text': "Theorems (Coq): time_split's slot-level machine refines its per-key machine; the windows are `sessions` defined by the property's decision rules (expired iff ts >= reference+active or ts >= previous+inactive, proved as an iff incl. gaps exactly equal to a timeout; closing item included/excluded; reference = first item or preceding closing item), each processed by a fresh inner machine in order; concat sessions = xs. Timestamps are integers in the model; for the datetime/timedelta runs the trace that enters the window pipelines is compared with the head boundary of the model (MCBnd) on the integer timestamps (the rules compare differences with timeouts: invariant under ts -> base + ts*unit) and judged by the rules on the Python side. Oracle: the rules re-implemented in Python from the property text, inner tap.",
     'note': 'Trusted: Coq kernel+VM; hand-written model; positive timeouts assumed; non-decreasing timestamps in generators.',
     'technique': 'Coq proof (forward-simulation refinement of a slot-level model by per-key local machines, list-level induction) + vm_compute correspondence against /repo + model-free oracle',
 }
